@@ -243,3 +243,90 @@ def is_not_found(proto, data):
     if fam == "spartan":
         return data.startswith(b"4 ")
     raise ValueError(proto)
+
+
+# ---------------------------------------------------------------- validators
+FAMILY_OF_CLASS = {
+    "GopherProtocol": "gopher", "SecureGopherProtocol": "gopher",
+    "GopherPlusProtocol": "gopherp", "SecureGopherPlusProtocol": "gopherp", "URLGopherPlus": "gopherp",
+    "HTTPProtocol": "http", "HTTPSProtocol": "http", "WAPProtocol": "http",
+    "GeminiProtocol": "gemini", "SpartanProtocol": "spartan",
+}
+
+# a bare CR cannot end a line (lines end with CRLF and request lines are read up to LF), so only
+# TAB and LF are structural inside a field
+_MENU_LINE = re.compile(rb"^[^\t\n][^\t\n]*\t[^\t\n]*\t[^\t\n]+\t\d+(\t\+)?$")
+_GP_FIRST = re.compile(rb"^[+-](-1|-2|\d+)\r\n")
+_HTTP_STATUS = re.compile(rb"^HTTP/1\.[01] \d{3} [^\r\n]*\r\n")
+_HTTP_HEADER = re.compile(rb"^[!#$%&'*+.^_`|~0-9A-Za-z-]+:[ \t]*[^\r\n]*$")
+_GEMINI_HEAD = re.compile(rb"^(\d\d) ([^\r\n]*)\r\n")
+_SPARTAN_HEAD = re.compile(rb"^(\d) ([^\r\n]*)\r\n")
+
+
+def validate(cls, request, resp):
+    """Independent syntactic validity check of a complete response for the
+    protocol class that answered.  Returns None when valid, else a short reason."""
+    fam = FAMILY_OF_CLASS.get(cls)
+    if fam is None:
+        return "unknown protocol class %r" % cls
+    if fam == "gopher":
+        # menu, error line or raw document: only an error line has a checkable shape
+        if resp.startswith(b"3") and b"\terror.host\t" in resp.split(b"\r\n", 1)[0]:
+            line = resp.split(b"\r\n", 1)[0]
+            if not _MENU_LINE.match(line) and not re.match(rb"^3[^\t\n]*\t\terror\.host\t1$", line):
+                return "malformed gopher error line"
+            if not resp.endswith(b"\r\n"):
+                return "gopher error line not terminated"
+        return None
+    if fam == "gopherp":
+        m = _GP_FIRST.match(resp)
+        if not m:
+            return "no Gopher+ status line"
+        rest = resp[m.end():]
+        if resp.startswith(b"-"):
+            if not re.match(rb"^\d+ [^\r\n]*\r\n", rest):
+                return "Gopher+ error block without '<code> <admin>' line"
+            return None
+        n = m.group(1)
+        if n not in (b"-1", b"-2"):
+            if len(rest) != int(n):
+                return "Gopher+ length %d but %d body bytes follow" % (int(n), len(rest))
+        return None
+    if fam == "http":
+        m = _HTTP_STATUS.match(resp)
+        if not m:
+            return "no HTTP status line"
+        head, sep, body = resp.partition(b"\r\n\r\n")
+        if not sep:
+            return "HTTP header block not terminated by a blank line"
+        for h in head.split(b"\r\n")[1:]:
+            if not _HTTP_HEADER.match(h):
+                return "malformed HTTP header line %r" % h[:60]
+        if request.startswith(b"HEAD ") and body:
+            return "HEAD response carries a body"
+        return None
+    if fam in ("gemini", "spartan"):
+        m = (_GEMINI_HEAD if fam == "gemini" else _SPARTAN_HEAD).match(resp)
+        if not m:
+            return "no %s status line" % fam
+        code = m.group(1)
+        body = resp[m.end():]
+        if not code.startswith(b"2") and body:
+            return "%s status %s is followed by a body (%r)" % (fam, code.decode(), body[:40])
+        return None
+    return None
+
+
+def is_error_reply(cls, resp):
+    fam = FAMILY_OF_CLASS.get(cls)
+    if fam == "gopher":
+        return resp.startswith(b"3") and b"\terror.host\t" in resp.split(b"\r\n", 1)[0]
+    if fam == "gopherp":
+        return resp.startswith(b"--")
+    if fam == "http":
+        return resp.startswith(b"HTTP/1.0 404") or b'title="404 Error"' in resp
+    if fam == "gemini":
+        return bool(re.match(rb"^[1345]\d ", resp))
+    if fam == "spartan":
+        return bool(re.match(rb"^[345] ", resp))
+    return False
